@@ -253,8 +253,21 @@ func (vc *VC) applyContract(x *ssa.Call, key string, fc *FuncContract, callee *s
 		res = Val{K: KTuple, T: sig.Results(), Fs: results}
 	}
 	// 4. postconditions
+	vc.lastGhostResults = map[string]Val{}
 	if fc != nil {
 		env := vc.calleeEnv(fc, callee, args, binds, results, sig)
+		for _, d := range fc.GResults {
+			g, t := vc.parseGT(d.Type)
+			var gv Val
+			if g != nil {
+				gv = Val{K: KArr, S: vc.fresh("gr_"+d.Name, g.sort()), Sort: g.sort(), GT: g}
+			} else {
+				gv = Val{K: kindOf(t), T: t, S: vc.fresh("gr_"+d.Name, sortOfType(t))}
+			}
+			gvc := gv
+			env.names[d.Name] = envEntry{val: &gvc}
+			vc.lastGhostResults[d.Name] = gv
+		}
 		for _, c := range fc.Ensures {
 			if c.Kind == "at-return" {
 				continue
